@@ -22,6 +22,7 @@ from ..rust.hx import Hx
 
 REPO = Path(os.environ.get('PI2_REPO', '/repo'))
 
+READY = True
 LEVEL = 'exploration'
 TECHNIQUE = ('runtime monitoring with a reference model: seeded Kore definitions and execution traces (matching, and with one '
              'deliberately mismatching step) are pushed through the real conversion and proof-generation code; produced claims, '
